@@ -76,6 +76,10 @@ CHECKS = {
    text="Complete enumeration on the implementation: every sentence of the well-nested event-stream grammar (tx start/end, start/end, enter/exit of 5 frame kinds with 3 results, 0..3 Aspect executions per join point with 3 results and 0..2 calls issued from inside each, tx-level join points) within a frame budget and nesting <= 3 is fed directly to callTracer and flatCallTracer under all 8 configurations; the result must parse and equal the tree the stream denotes (every call once under its issuer, every Aspect execution with its own gas used, output and error; flat: frame count, subtraces == emitted children, distinct prefix-closed trace addresses). Conformance: depth-3 scenario chains run on the real EVM with each tracer attached behind a recording tee must emit sentences of that grammar and satisfy the same oracle.",
    tech="exhaustive enumeration of event-stream histories up to a bound executed on the real tracers, compared with a stack-machine reference model; grammar validated against streams emitted by the real EVM + djpm.runAspect",
    note="Under onlyTopCall only the top frame and its own Aspect executions are judged."),
+ "C18": dict(cat="model_checking", ref="DESIGN.md §4 C18",
+   text="Bounded exhaustive exploration on the implementation: C01's program families x gas limits sampled from the step boundaries of the ample-gas run, executed on /repo's vm and on go-ethereum v1.12.0 (i) with equivalent full-data recording debug tracers - every callback with copied stack, memory, return data, gas, cost, depth, refund and error text must be equal - and (iii) with each of 17 ported tracer configurations (struct logger variants, access-list, prestate +/- diff mode, 4byte, call, flat call, mux, noop) next to its upstream original, results compared byte for byte; (ii) scenario call trees with Aspects bound everywhere, failing join-point answers and repeated invocations: start/end, enter/exit and Aspect enter/exit balanced and nested, every instruction reported at the depth of the open frames.",
+   tech="stateless bounded-exhaustive enumeration of (program, gas limit, tracer configuration) executions on the real code, differential comparison with the reference implementation and its tracers; fault enumeration for event-stream balance",
+   note="Access lists are compared in canonical order (both implementations build them from Go maps)."),
 }
 
 NOT_YET = {}
